@@ -42,6 +42,11 @@ type Case struct {
 	// HalfClose: after its last burst every stream peer shuts down its sending direction (FIN); everything
 	// it sent before must still be delivered, and nothing may spin afterwards
 	HalfClose bool `json:"half_close,omitempty"`
+	// ReadBufs: "custom" = the application supplies the read buffers (OnReadBufferAlloc hands out a fresh buffer
+	// per read, OnReadBufferFree overwrites it: whatever is delivered after the buffer was given back reads 0xDD);
+	// DataPtr: the data callback is registered with OnDataPtr
+	ReadBufs string `json:"read_bufs,omitempty"`
+	DataPtr  bool   `json:"data_ptr,omitempty"`
 }
 
 const window = 4 * time.Second
@@ -117,7 +122,20 @@ func newEngine(c Case) (*nbio.Engine, func()) {
 			return uc, err
 		}
 	}
-	return nbio.NewEngine(conf), cleanup
+	g := nbio.NewEngine(conf)
+	if c.ReadBufs == "custom" {
+		g.OnReadBufferAlloc(func(*nbio.Conn) *[]byte {
+			b := make([]byte, bufSize)
+			return &b
+		})
+		g.OnReadBufferFree(func(_ *nbio.Conn, pb *[]byte) {
+			b := (*pb)[:cap(*pb)]
+			for i := range b {
+				b[i] = 0xDD
+			}
+		})
+	}
+	return g, cleanup
 }
 
 func idleCheck(res *vlib.Result) error {
@@ -152,7 +170,16 @@ func runCase(c Case) vlib.Result {
 	var delivered int64
 	var lastProgress atomic.Int64
 	lastProgress.Store(time.Now().UnixNano())
-	g.OnData(func(conn *nbio.Conn, data []byte) {
+	onData := g.OnData
+	if c.DataPtr {
+		onData = func(h func(*nbio.Conn, []byte)) {
+			g.OnDataPtr(func(conn *nbio.Conn, p *[]byte) { h(conn, *p) })
+		}
+	}
+	if c.ReadBufs != "" || c.DataPtr {
+		res.Classes = append(res.Classes, fmt.Sprintf("read-bufs=%s/data-ptr=%v", c.ReadBufs, c.DataPtr))
+	}
+	onData(func(conn *nbio.Conn, data []byte) {
 		mu.Lock()
 		st := states[conn]
 		mu.Unlock()
@@ -589,6 +616,10 @@ func gen(t *rapid.T) Case {
 		c.Conns = append(c.Conns, bursts)
 	}
 	c.HalfClose = rapid.IntRange(0, 3).Draw(t, "halfclose") == 0
+	if rapid.IntRange(0, 3).Draw(t, "custombufs") == 0 {
+		c.ReadBufs = "custom"
+	}
+	c.DataPtr = rapid.IntRange(0, 3).Draw(t, "dataptr") == 0
 	if shimAvailable && rapid.Bool().Draw(t, "readscript") {
 		kinds := []int{0, 0, 2, 3}
 		if c.Mode == vlib.ModeET {
